@@ -175,6 +175,21 @@ def term(expr: ast.AST | None, env: dict[str, Term] | None = None) -> Term:
                     return ('RED', base)
             if f.attr == 'mv' and len(args) == 1:
                 return ('apply', base, args[0])
+        # structure(T).unflatten([g(l, r) for l, r in zip(leaves(T), leaves(U))]) is jax.tree.map(g, T, U) (for containers of one
+        # structure, which is what the guard in front of it establishes; the rules check that guard separately)
+        if isinstance(f, ast.Attribute) and f.attr == 'unflatten' and len(args) == 1 and not kwargs:
+            base = term(f.value, env)
+            c = args[0]
+            if (base[0] == 'call' and base[1] == ('attr', _TREE_NS, 'structure') and len(base[2]) == 1 and c[0] == 'comp' and len(c[2]) == 1 and not c[2][0][2]
+                    and c[2][0][1][0] == 'call' and c[2][0][1][1] == ('var', 'zip') and c[2][0][0][0] == 'tuple'):
+                tgt, it = c[2][0][0], c[2][0][1]
+                leaves = it[2]
+                names = [x[1] for x in tgt[1:] if x[0] == 'var']
+                if len(names) == len(tgt) - 1 == len(leaves) and all(
+                    l[0] == 'call' and l[1] == ('attr', _TREE_NS, 'leaves') and len(l[2]) == 1 and l[3] == base[3] for l in leaves
+                ) and leaves[0][2] == base[2]:
+                    lam = ('lambda', tuple(names), c[1])
+                    return ('call', ('attr', _TREE_NS, 'map'), (lam,) + tuple(l[2][0] for l in leaves), base[3])
         q = _qualified(f)
         # operator.attrgetter('a') is lambda x: x.a; operator.matmul is lambda a, b: a @ b
         if q == 'operator.attrgetter' and len(expr.args) == 1 and not kwargs and isinstance(expr.args[0], ast.Constant) and isinstance(expr.args[0].value, str) and '.' not in expr.args[0].value:
@@ -234,7 +249,12 @@ def term(expr: ast.AST | None, env: dict[str, Term] | None = None) -> Term:
         parts = [term(expr.left, env)] + [term(c, env) for c in expr.comparators]
         return ('chain', tuple(_CMP[type(o)] for o in expr.ops)) + tuple(parts)
     if isinstance(expr, ast.Subscript):
-        return ('sub', term(expr.value, env), term(expr.slice, env))
+        base_t, idx_t = term(expr.value, env), term(expr.slice, env)
+        if idx_t in (('const', '0'), ('const', '1')):
+            part = _flatten_part(base_t, int(idx_t[1]))
+            if part is not None:
+                return part
+        return ('sub', base_t, idx_t)
     if isinstance(expr, ast.Slice):
         return ('slice', term(expr.lower, env), term(expr.upper, env), term(expr.step, env))
     if isinstance(expr, ast.IfExp):
@@ -280,7 +300,18 @@ def bind_target(target: ast.AST, value: Term, env: dict[str, Term]) -> None:
                     if len(target.elts) == 1:
                         bind_target(e, ('sub', value, ('const', '0')), env)  # (y,) = v is y = v[0]
                     else:
-                        bind_target(e, ('item', value, idx), env)
+                        part = _flatten_part(value, idx) if len(target.elts) == 2 else None
+                        bind_target(e, part if part is not None else ('item', value, idx), env)
+
+
+_TREE_NS = ('attr', ('var', 'jax'), 'tree')
+
+
+def _flatten_part(value: Term, idx: int) -> Term | None:
+    """jax.tree.flatten(t, ...)[0] is jax.tree.leaves(t, ...); [1] is jax.tree.structure(t, ...)."""
+    if isinstance(value, tuple) and len(value) == 4 and value[0] == 'call' and value[1] == ('attr', _TREE_NS, 'flatten') and idx in (0, 1):
+        return ('call', ('attr', _TREE_NS, 'leaves' if idx == 0 else 'structure'), value[2], value[3])
+    return None
 
 
 def path_env(path: Path, env: dict[str, Term] | None = None, upto: ast.AST | None = None, track_items: bool = False) -> dict[str, Term]:
